@@ -1636,6 +1636,8 @@ class Ev(object):
             return []
         if name in ("setattr", "getattr", "delattr", "hasattr") and len(args) >= 2 and not isinstance(args[1], Const):
             raise AnalysisError("%s: %s() with an attribute name that does not fold to a constant" % (site, name))
+        if name == "object.__setattr__" and len(args) == 3 and isinstance(args[1], Const) and isinstance(args[0], Obj):
+            name = "setattr"            # the frozen-dataclass idiom: a plain store on the instance
         if name == "setattr" and len(args) == 3 and isinstance(args[1], Const):
             self.store_attr(args[0], args[1].v, args[2], st, site)
             return [Outcome("return", NONE, st)]
@@ -1688,6 +1690,66 @@ class Ev(object):
             return False
         return None
 
+    @staticmethod
+    def _is_dataclass_deco(d):
+        d = d.func if isinstance(d, ast.Call) else d
+        return (isinstance(d, ast.Name) and d.id == "dataclass") or (isinstance(d, ast.Attribute) and d.attr == "dataclass")
+
+    def _dataclass_init(self, cls, site):
+        """The __init__ that @dataclass synthesises for cls (fields = annotated class-level names of the dataclasses in
+        the MRO, bases first; field(init=False) / default / default_factory honoured; __post_init__ called last), as a
+        FunctionDef - or None when cls is not a dataclass.  Any other class decorator that is not a package function is
+        outside the analysable subset (a class decorator may replace the class altogether)."""
+        memo = self.world.__dict__.setdefault("_dc_init", {})
+        if cls.qual in memo:
+            return memo[cls.qual]
+        res = None
+        decos = list(cls.node.decorator_list)
+        if decos:
+            if not all(self._is_dataclass_deco(d) for d in decos):
+                other = [ast.unparse(d) for d in decos if not self._is_dataclass_deco(d)]
+                raise AnalysisError("%s:%d: class decorator %s is outside the analysable subset - no verdict"
+                                    % (cls.mod.relpath, cls.node.lineno, ", ".join(other)))
+            params, body = [], []
+            seen = {}
+            for c in reversed(cls.mro()):
+                if not any(self._is_dataclass_deco(d) for d in c.node.decorator_list):
+                    continue
+                for stmt in c.node.body:
+                    if isinstance(stmt, ast.AnnAssign) and isinstance(stmt.target, ast.Name) and "ClassVar" not in ast.unparse(stmt.annotation):
+                        seen[stmt.target.id] = stmt
+            for nm, stmt in seen.items():
+                v = stmt.value
+                is_field = isinstance(v, ast.Call) and ((isinstance(v.func, ast.Name) and v.func.id == "field") or
+                                                         (isinstance(v.func, ast.Attribute) and v.func.attr == "field"))
+                kws = {k.arg: k.value for k in v.keywords} if is_field else {}
+                in_init = not (is_field and isinstance(kws.get("init"), ast.Constant) and kws["init"].value is False)
+                default = None
+                if is_field:
+                    if "default" in kws:
+                        default = ast.unparse(kws["default"])
+                    elif "default_factory" in kws:
+                        default = "(%s)()" % ast.unparse(kws["default_factory"])
+                elif v is not None:
+                    default = ast.unparse(v)
+                if in_init:
+                    params.append(nm if default is None else "%s=%s" % (nm, default))
+                    body.append("    self.%s = %s" % (nm, nm))
+                elif default is not None:
+                    body.append("    self.%s = %s" % (nm, default))
+            pi = cls.lookup("__post_init__")
+            if pi is not None and pi[0] == "func":
+                body.append("    self.__post_init__()")
+            src = "def __init__(self%s):\n%s\n" % ("".join(", " + p_ for p_ in params), "\n".join(body) or "    pass")
+            res = ast.parse(src).body[0]
+            for x in ast.walk(res):
+                if hasattr(x, "lineno"):
+                    x.lineno = cls.node.lineno
+                    x.end_lineno = cls.node.lineno
+            res._parent = cls.node
+        memo[cls.qual] = res
+        return res
+
     def _instantiate(self, cls, args, kw, st, site):
         if cls.is_exception():
             return [Outcome("return", App("exc:" + cls.qual, args, kw), st)]
@@ -1696,6 +1758,9 @@ class Ev(object):
         o = self.new_obj(cls, st)
         st.log.append(("alloc", o, site))
         init = cls.lookup("__init__")
+        dc = self._dataclass_init(cls, site)
+        if dc is not None and (init is None or init[0] != "func"):
+            init = ("func", dc, cls)
         if init is None or init[0] != "func":
             if args or kw:
                 self.do_raise(st, "TypeError", site, "%s() takes no arguments" % cls.name)
